@@ -174,7 +174,11 @@ def run_case(case):
         standin_cplex.uninstall()
     log_starts, log_aux = [], []
     try:
-        ds = Dataset.from_raw_list(am.raw_dataset(case["D"]))
+        ds = core.build_dataset(am.raw_dataset(case["D"]), case.get("entry", 0))
+        if case.get("entry", 0) % 6 in (4, 5):
+            rec["D"] = [am.ranking(r) for r in ds.rankings]            # derived dataset: observed rankings
+            if any(0 in b for r in rec["D"] for b in r):
+                raise ValueError("projection")
         uexp = case.get("uexp")
         if uexp is not None:
             # penalties q * 2**(-uexp): exact floats, arbitrarily small or large; TLC works on the integers q
